@@ -44,7 +44,7 @@ pub struct KnownP384 {
 impl Builder {
     pub fn new(property: &str, seed: u64, run: u64, nodes: Vec<Bk>) -> Self {
         Builder {
-            plan: Plan { property: property.to_string(), seed, run, nodes, iv: None, env: None, steps: Vec::new() },
+            plan: Plan { property: property.to_string(), seed, run, nodes, iv: None, env: None, odd_alloc: crate::prng::mix(seed, "allocator-placement", run) % 3 == 0, steps: Vec::new() },
             rng: Rng::derive(seed, property, run),
             next_key: 0,
             next_tok: 0,
